@@ -471,6 +471,52 @@ func (nl *nleg) runScenario(sc *scen) {
 	}
 	q := newRequest(nl.sh.headTime, uxs)
 	genRequest(rng, q, genParams{unit: nodeUnit, extra: nl.dests, changeSet: nl.dests})
+	p := q.params()
+
+	// session: in half of the scenarios that go through Go calls the caller first issues another
+	// request on the same outputs (checked like any other, but not sent to the node) and reuses its
+	// objects for the main one: the share factor, the output / address lists
+	if !strings.HasPrefix(via, "api") {
+		prng := r.Rand("node-prelude", sc.idx)
+		if prng.Intn(2) == 0 {
+			q0 := newRequest(nl.sh.headTime, uxs)
+			gp := genParams{unit: nodeUnit, extra: nl.dests, changeSet: nl.dests, forceAuto: true}
+			if prng.Intn(3) != 0 {
+				gp.force = "exact-all"
+			}
+			genRequest(prng, q0, gp)
+			if !q.manual {
+				q0.share = q.share
+			} else if prng.Intn(3) != 0 {
+				q0.share = shareFactors[1+prng.Intn(3)]
+			}
+			p0 := q0.params()
+			shared := false
+			if !q.manual && q.share == q0.share {
+				p0.HoursSelection.ShareFactor = p.HoursSelection.ShareFactor
+				shared = true
+				l.count("node.session.share-factor-pointer-reused")
+			}
+			q0.note = map[string]interface{}{"session": "first request of the scenario; the main request follows with the same share factor object and output/address lists"}
+			l.count("node.session.first-requests")
+			ob0, ok0 := nl.request(sc, via, q0, p0, wp, false)
+			if ok0 && ob0.shareFallback && shared {
+				q.note = map[string]interface{}{"session": "second request of the scenario", "earlier_request": map[string]interface{}{"recipe": q0.recipe, "mode": modeKey(q0), "to": outsString(q0.to), "fell_back_to_1": true}}
+				ob, ok := nl.request(sc, via, q, p, wp, true)
+				if ok && ob.haveChange {
+					l.count("node.session.with-change-after-fallback-on-same-share-factor")
+				}
+				return
+			}
+		}
+	}
+	nl.request(sc, via, q, p, wp, true)
+}
+
+// request issues one request through via and judges the answer; final: the returned transaction is
+// completed with the owners' keys and handed to the node
+func (nl *nleg) request(sc *scen, via string, q *request, p transaction.Params, wp visor.CreateTransactionParams, final bool) (ob observed, ok bool) {
+	r, l := nl.r, nl.l
 	leg := "node"
 	l.evals++
 	l.count("node.requests")
@@ -487,7 +533,7 @@ func (nl *nleg) runScenario(sc *scen) {
 		l.count("node.requests.change-would-equal-destination")
 	}
 
-	p := q.params()
+	before := snapshotCall(p, nil, &wp)
 	var txn *coin.Transaction
 	var err error
 	status, msg := 0, ""
@@ -505,6 +551,13 @@ func (nl *nleg) runScenario(sc *scen) {
 			txn, status, msg, err = nl.apiCreate(q, wp)
 		}
 	})
+	outcome := "success"
+	if panicked {
+		outcome = "panic"
+	} else if err != nil || txn == nil {
+		outcome = "error"
+	}
+	checkUnchanged(r, l, leg, via, sc.idx, q, before, p, nil, &wp, outcome)
 	if panicked {
 		viol(r, "panic", map[string]string{"leg": leg, "via": via, "frame": frame, "msg": pmsg, "recipe": q.recipe}, q.witness(leg, sc.idx, nil, pmsg))
 		return
@@ -550,6 +603,10 @@ func (nl *nleg) runScenario(sc *scen) {
 	ps, ob := checkSuccess(q, txn, signed, burnFactor())
 	noteSuccess(l, leg, q, ob)
 	report(r, leg, via, sc.idx, q, ps, ob, txn, "")
+	ok = true
+	if !final {
+		return
+	}
 
 	// complete it with the owners' keys and hand it to the node
 	full := *txn
@@ -559,12 +616,12 @@ func (nl *nleg) runScenario(sc *scen) {
 	if !signed {
 		keys := make([]cipher.SecKey, 0, len(full.In))
 		for _, in := range full.In {
-			i, ok := q.byID[in]
-			if !ok {
+			i, found := q.byID[in]
+			if !found {
 				return // already reported: spends an output that was not offered
 			}
-			k, ok := nl.chain.KeyFor(q.off[i].ux.Body.Address)
-			if !ok {
+			k, found := nl.chain.KeyFor(q.off[i].ux.Body.Address)
+			if !found {
 				nl.harnessFail("no key for %s", q.off[i].ux.Body.Address)
 			}
 			keys = append(keys, k.Sec)
@@ -601,6 +658,7 @@ func (nl *nleg) runScenario(sc *scen) {
 		nl.pending[in] = true
 	}
 	nl.poolN++
+	return
 }
 
 func nodeLeg(r *vf.Run, nScen int) {
